@@ -12,7 +12,7 @@
    imports neither cyclic nor duplicated).  [check] is the model of the parser (theories/Front.v)
    whose numeric tests are re-translated from _ast.py on every run (gen/GenFront.v). *)
 From Coq Require Import ZArith List Bool String.
-From BP Require Import Schema FrontBase Front FrontValid FrontValidProofs.
+From BP Require Import Schema FrontBase Front FrontValid FrontValidProofs FrontWf.
 Import ListNotations.
 Open Scope Z_scope.
 
@@ -57,6 +57,14 @@ Proof.
         (conj message_size_bridge (conj enum_overflow_bridge ty_nbits_eq)))))).
 Qed.
 Print Assumptions C08_bounds.
+
+(* every message type of an accepted schema is well formed in the sense the wire-level theorems
+   (C01, C02, C12) assume, also after normalisation: widths 1..64, capacities 1..65535, numbers
+   1..255 and distinct, enum members within the width, at most 65535 bits at every level *)
+Theorem C08_accepted_types_wf : forall fs root trad e p t,
+  check fs root trad = Ok e -> msg_ty_at (Ok e) p = Some t -> wf t = true /\ wf (norm t) = true.
+Proof. exact accepted_types_wf. Qed.
+Print Assumptions C08_accepted_types_wf.
 
 (* FINDINGS (replayed on the real compiler: corpus/C08/).  The property text has no clause about
    dividing by zero in a constant expression; the compiler does not accept such a schema, and
